@@ -95,7 +95,7 @@ def run(vlib, exe, tier, crash_site, deadline=None, time_fn=None):
     lengths = sorted({c[0] for c in cases})
     for L in lengths:
         chunk = [c for c in cases if c[0] == L]
-        if deadline is not None and time_fn() > deadline:
+        if L > 6 and deadline is not None and time_fn() > deadline:      # lengths <= 6 always run (quick has exactly those); longer ones only while there is time
             exhaustive = False
             cov['deadline'] = 'stopped before length %d' % L
             break
